@@ -55,6 +55,8 @@ type warg struct {
 	off, n, spare int
 	isNil         bool
 	dst           bool // explicit AEAD destination: dst[len:cap] may be written
+	shared        bool // cut out of an array that holds other arguments too (aliasing layouts)
+	first         bool // first argument of its shared array
 }
 
 func canary(i, salt int) byte { return 0x80 | byte((i*29+salt*17+11)&0x7f) }
@@ -91,6 +93,9 @@ func (w *warg) desc() string {
 	if w.isNil {
 		return w.name + "=nil"
 	}
+	if w.shared {
+		return fmt.Sprintf("%s=shared[%d:%d:%d]", w.name, w.off, w.off+w.n, w.off+w.n+w.spare)
+	}
 	return fmt.Sprintf("%s=[off%d len%d spare%d]", w.name, w.off, w.n, w.spare)
 }
 
@@ -113,6 +118,8 @@ type call struct {
 	err    error
 	panicV any
 	extra  string // free-form parameters for the replay (block size, dst shape ...)
+	layout string // aliasing layout name when several arguments share one array ("" = every argument has its own array)
+	second bool   // this is the repeated, identical call of an aliasing layout
 }
 
 type finding struct {
@@ -129,54 +136,143 @@ func hexN(b []byte) string {
 	return hex.EncodeToString(b)
 }
 
+// arrInfo is one backing array together with the arguments cut out of it.
+// Normally every argument has its own array; the aliasing layouts
+// (alias_test.go) put several arguments into one.
+type arrInfo struct {
+	arr, snap []byte
+	members   []*warg
+}
+
+func groupArrays(args []*warg) []*arrInfo {
+	var out []*arrInfo
+	for _, w := range args {
+		if w.isNil || len(w.arr) == 0 {
+			continue
+		}
+		var ai *arrInfo
+		for _, x := range out {
+			if &x.arr[0] == &w.arr[0] {
+				ai = x
+				break
+			}
+		}
+		if ai == nil {
+			ai = &arrInfo{arr: w.arr, snap: w.snap}
+			out = append(out, ai)
+		}
+		ai.members = append(ai.members, w)
+	}
+	return out
+}
+
+// classify says whose memory byte i of the array is: the argument(s) whose
+// length covers it (region 1), else the argument whose spare capacity covers
+// it (the nearest one in front; region 2), else memory in front of every
+// argument (0) or behind every capacity (3).
+func (ai *arrInfo) classify(i int) (owner string, region int, dst bool) {
+	var names []string
+	for _, m := range ai.members {
+		if i >= m.off && i < m.off+m.n {
+			names = append(names, m.name)
+		}
+	}
+	if len(names) > 0 {
+		return strings.Join(names, "="), 1, false
+	}
+	var best *warg
+	for _, m := range ai.members {
+		if e := m.off + m.n; i >= e && i < e+m.spare && (best == nil || e > best.off+best.n) {
+			best = m
+		}
+	}
+	if best != nil {
+		return best.name, 2, best.dst
+	}
+	first, last := ai.members[0], ai.members[0]
+	for _, m := range ai.members {
+		if m.off < first.off {
+			first = m
+		}
+		if m.off+m.n+m.spare > last.off+last.n+last.spare {
+			last = m
+		}
+	}
+	if i < first.off {
+		return first.name, 0, false
+	}
+	return last.name, 3, false
+}
+
+func (ai *arrInfo) hasDst() bool {
+	for _, m := range ai.members {
+		if m.dst {
+			return true
+		}
+	}
+	return false
+}
+
+func (ai *arrInfo) member(name string) *warg {
+	name, _, _ = strings.Cut(name, "=")
+	for _, m := range ai.members {
+		if m.name == name {
+			return m
+		}
+	}
+	return ai.members[0]
+}
+
 // inspect compares every argument array with its snapshot and locates the
 // returned slices. It is a pure function of the call (self-tested below).
 func inspect(c *call, observe func(kind, what string)) []finding {
 	var out []finding
-	for _, w := range c.args {
-		if w.isNil {
-			continue
+	sfx := ""
+	if c.layout != "" {
+		sfx = "@" + c.layout
+	}
+	arrays := groupArrays(c.args)
+	for _, ai := range arrays {
+		type key struct {
+			owner  string
+			region int
 		}
-		lo, hi := w.off, w.off+w.n
-		capEnd := hi + w.spare
-		var cnt, first, last [4]int
-		for r := range first {
-			first[r] = -1
-		}
-		for i := range w.arr {
-			if w.arr[i] == w.snap[i] {
+		type run struct{ cnt, first, last int }
+		runs := map[key]*run{}
+		var order []key
+		for i := range ai.arr {
+			if ai.arr[i] == ai.snap[i] {
 				continue
 			}
-			r := 3
-			switch {
-			case i < lo:
-				r = 0
-			case i < hi:
-				r = 1
-			case i < capEnd:
-				r = 2
-			}
-			cnt[r]++
-			if first[r] < 0 {
-				first[r] = i
-			}
-			last[r] = i
-		}
-		for r := 0; r < 4; r++ {
-			if cnt[r] == 0 {
-				continue
-			}
-			if r == 2 && w.dst {
+			owner, region, dst := ai.classify(i)
+			if region == 2 && dst {
 				observe("dst", "dst.spare_written_allowed")
 				continue
 			}
-			a, b := first[r], last[r]+1
+			k := key{owner, region}
+			r := runs[k]
+			if r == nil {
+				r = &run{first: i}
+				runs[k] = r
+				order = append(order, k)
+			}
+			r.cnt++
+			r.last = i
+		}
+		for _, k := range order {
+			r := runs[k]
+			w := ai.member(k.owner)
+			a, b := r.first, r.last+1
+			lay := ""
+			if c.layout != "" {
+				lay = fmt.Sprintf(" [arguments share one array, layout %s: %s]", c.layout, describeMembers(ai))
+			}
 			out = append(out, finding{
-				sig: fmt.Sprintf("%s/%s/%s-written", c.fn, w.name, regionNames[r]),
-				msg: fmt.Sprintf("%s (%s, path %s, outcome %s) changed %d byte(s) of the caller's %s argument in its %s region: slice index %d..%d (len %d, cap %d)",
-					c.fn, c.alg, c.path, c.outcome(), cnt[r], w.name, regionNames[r], a-w.off, b-1-w.off, w.n, w.n+w.spare),
-				detail: map[string]any{"arg": w.name, "region": regionNames[r], "slice_index_first": a - w.off, "slice_index_last": b - 1 - w.off,
-					"changed": cnt[r], "before": hexN(w.snap[a:b]), "after": hexN(w.arr[a:b])},
+				sig: fmt.Sprintf("%s/%s/%s-written%s", c.fn, k.owner, regionNames[k.region], sfx),
+				msg: fmt.Sprintf("%s (%s, path %s, outcome %s) changed %d byte(s) of the caller's %s argument in its %s region: slice index %d..%d (len %d, cap %d)%s",
+					c.fn, c.alg, c.path, c.outcome(), r.cnt, k.owner, regionNames[k.region], a-w.off, b-1-w.off, w.n, w.n+w.spare, lay),
+				detail: map[string]any{"arg": k.owner, "region": regionNames[k.region], "slice_index_first": a - w.off, "slice_index_last": b - 1 - w.off,
+					"array_index_first": a, "changed": r.cnt, "before": hexN(ai.snap[a:b]), "after": hexN(ai.arr[a:b])},
 			})
 		}
 	}
@@ -185,42 +281,56 @@ func inspect(c *call, observe func(kind, what string)) []finding {
 			continue
 		}
 		p := uintptr(unsafe.Pointer(unsafe.SliceData(r.b)))
-		for _, w := range c.args {
-			if w.isNil {
-				continue
-			}
-			base := uintptr(unsafe.Pointer(&w.arr[0]))
-			a0 := int(int64(p) - int64(base)) // index in w.arr of result[0]
-			liveLo, liveHi := max(a0, 0), min(a0+len(r.b), len(w.arr))
-			capLo, capHi := max(a0, 0), min(a0+cap(r.b), len(w.arr))
+		for _, ai := range arrays {
+			base := uintptr(unsafe.Pointer(&ai.arr[0]))
+			a0 := int(int64(p) - int64(base)) // index in the array of result[0]
+			liveLo, liveHi := max(a0, 0), min(a0+len(r.b), len(ai.arr))
+			capLo, capHi := max(a0, 0), min(a0+cap(r.b), len(ai.arr))
 			if capLo >= capHi {
 				continue // disjoint
 			}
-			if w.dst {
+			if ai.hasDst() {
 				observe("dst", "dst.result_aliases_dst")
 				continue
 			}
-			lo, hi := w.off, w.off+w.n
-			if liveLo < liveHi {
-				// result bytes outside the argument's own [lo,hi)?
-				if liveLo < lo || liveHi > hi {
-					out = append(out, finding{
-						sig: fmt.Sprintf("%s/%s/result-in-spare", c.fn, w.name),
-						msg: fmt.Sprintf("%s (%s, path %s, outcome %s): returned slice %q (len %d) occupies bytes %d..%d of the caller's %s argument (len %d, cap %d), i.e. memory behind its length: the result was stored in the caller's spare capacity",
-							c.fn, c.alg, c.path, c.outcome(), r.name, len(r.b), liveLo-w.off, liveHi-1-w.off, w.name, w.n, w.n+w.spare),
-						detail: map[string]any{"arg": w.name, "result": r.name, "result_len": len(r.b), "result_cap": cap(r.b),
-							"result_start_slice_index": a0 - w.off},
-					})
+			if liveLo >= liveHi {
+				observe("alias", fmt.Sprintf("%s returns a slice whose capacity (not length) reaches into its %s argument's array (no write; not judged)", fnBase(c.fn), ai.members[0].name))
+				continue
+			}
+			outside, inside := -1, ""
+			for i := liveLo; i < liveHi; i++ {
+				owner, region, _ := ai.classify(i)
+				if region == 1 {
+					inside = owner
+				} else if outside < 0 {
+					outside = i
 				}
-				if liveLo < hi && liveHi > lo {
-					observe("alias", fmt.Sprintf("%s returns a slice that shares memory with the live bytes of its %s argument (no write; not judged)", fnBase(c.fn), w.name))
-				}
-			} else {
-				observe("alias", fmt.Sprintf("%s returns a slice whose capacity (not length) reaches into its %s argument's array (no write; not judged)", fnBase(c.fn), w.name))
+			}
+			if outside >= 0 {
+				owner, _, _ := ai.classify(outside)
+				w := ai.member(owner)
+				out = append(out, finding{
+					sig: fmt.Sprintf("%s/%s/result-in-spare%s", c.fn, owner, sfx),
+					msg: fmt.Sprintf("%s (%s, path %s, outcome %s): returned slice %q (len %d) occupies bytes %d..%d of the caller's %s argument (len %d, cap %d), i.e. memory behind its length: the result was stored in the caller's spare capacity",
+						c.fn, c.alg, c.path, c.outcome(), r.name, len(r.b), liveLo-w.off, liveHi-1-w.off, owner, w.n, w.n+w.spare),
+					detail: map[string]any{"arg": owner, "result": r.name, "result_len": len(r.b), "result_cap": cap(r.b),
+						"result_start_slice_index": a0 - w.off},
+				})
+			}
+			if inside != "" {
+				observe("alias", fmt.Sprintf("%s returns a slice that shares memory with the live bytes of its %s argument (no write; not judged)", fnBase(c.fn), inside))
 			}
 		}
 	}
 	return out
+}
+
+func describeMembers(ai *arrInfo) string {
+	var ds []string
+	for _, m := range ai.members {
+		ds = append(ds, fmt.Sprintf("%s=arr[%d:%d:%d]", m.name, m.off, m.off+m.n, m.off+m.n+m.spare))
+	}
+	return strings.Join(ds, " ")
 }
 
 func fnBase(fn string) string {
@@ -257,7 +367,7 @@ func (c *call) replay(f finding) map[string]any {
 			args = append(args, map[string]any{"name": w.name, "nil": true})
 			continue
 		}
-		args = append(args, map[string]any{"name": w.name, "off": w.off, "len": w.n, "spare": w.spare, "dst": w.dst,
+		args = append(args, map[string]any{"name": w.name, "off": w.off, "len": w.n, "spare": w.spare, "dst": w.dst, "shared_array": w.shared,
 			"bytes": hexN(w.snap[w.off : w.off+w.n])})
 	}
 	m := map[string]any{"fn": c.fn, "algorithm": c.alg, "path": c.path, "outcome": c.outcome(), "args": args,
@@ -272,11 +382,23 @@ func (c *call) replay(f finding) map[string]any {
 	if c.extra != "" {
 		m["params"] = c.extra
 	}
+	if c.layout != "" {
+		m["layout"] = c.layout
+		m["second_identical_call"] = c.second
+		var arrs []map[string]any
+		for _, ai := range groupArrays(c.args) {
+			if len(ai.members) > 1 || ai.members[0].shared {
+				arrs = append(arrs, map[string]any{"array_len": len(ai.arr), "members": describeMembers(ai), "array_before": hexN(ai.snap)})
+			}
+		}
+		m["shared_arrays"] = arrs
+		m["how"] = "arguments listed under shared_arrays are slices arr[lo:hi:cap] of ONE array (array_before = its content before the call); the others have their own canary-filled array as described by off/len/spare; call fn and compare every array"
+	}
 	return m
 }
 
-// judge records the verdict of one call.
-func (c *call) judge() {
+// judge records the verdict of one call and returns the number of findings.
+func (c *call) judge() int {
 	fs := inspect(c, func(kind, what string) {
 		if kind == "alias" {
 			rec.Observe(what)
@@ -302,7 +424,16 @@ func (c *call) judge() {
 	}
 	nontrivial := false
 	var kb strings.Builder
-	fmt.Fprintf(&kb, "%s|%s|%s|%d|%s", c.fn, c.alg, c.path, c.rep, c.extra)
+	fmt.Fprintf(&kb, "%s|%s|%s|%d|%s|%s|%v", c.fn, c.alg, c.path, c.rep, c.extra, c.layout, c.second)
+	if c.layout != "" {
+		rec.Count("alias.calls", 1)
+		rec.Count("alias.fn."+fb, 1)
+		rec.Count("alias.layout."+c.layout, 1)
+		rec.Count("alias."+fb+"."+c.layout, 1)
+		if c.second {
+			rec.Count("alias.second_calls", 1)
+		}
+	}
 	watched := 0
 	for _, w := range c.args {
 		kb.WriteString("|")
@@ -311,13 +442,16 @@ func (c *call) judge() {
 			rec.Count("args.nil", 1)
 			continue
 		}
-		watched += len(w.arr)
+		if !w.shared || w.first {
+			watched += len(w.arr)
+		}
 		if w.spare > 0 {
 			nontrivial = true
 		}
-		if w.dst {
+		switch {
+		case w.dst:
 			rec.Count("dst.watched", 1) // dst capacities are derived from the needed size, not from the layout table
-		} else {
+		case c.layout == "" || !w.shared:
 			rec.Count(fmt.Sprintf("layout.off%d.spare%d", w.off, w.spare), 1)
 		}
 		// shared arguments (retained keys) are re-synchronised so one write is reported once
@@ -334,6 +468,7 @@ func (c *call) judge() {
 		}
 		rec.Sample(map[string]any{"fn": c.fn, "algorithm": c.alg, "path": c.path, "args": ds, "verdict": "all arrays bit-identical"})
 	}
+	return len(fs)
 }
 
 // ---------------------------------------------------------------- group context
@@ -479,6 +614,43 @@ func selftest() {
 		}
 		check("oob", sigs(c), want)
 	}
+	// aliasing layouts: several arguments in one array
+	g := &gctx{}
+	for g.round = 0; g.round < rounds; g.round++ {
+		ct, tag := []byte("ciphertext-bytes"), []byte("TAGTAGTAGTAGTAGT")
+		// 6. the "no-copy fast path" shape: ct's spare capacity is the tag; open in place over ct
+		m := g.arena(0, seg{name: "ciphertext", data: ct}, seg{name: "tag", data: tag})
+		c := &call{fn: "self.inplace", layout: "ct|tag", args: argsOf(m, "ciphertext", "tag")}
+		sealed := m["ciphertext"].s()[:len(ct)+len(tag)]
+		copy(sealed, "plaintext")
+		c.res = []namedRes{{"out", sealed[:9]}}
+		check("inplace", sigs(c), "self.inplace/ciphertext/body-written@ct|tag")
+		clear(sealed) // authentication failure: the whole buffer is zeroed
+		check("inplace-zero", sigs(c), "self.inplace/ciphertext/body-written@ct|tag,self.inplace/tag/body-written@ct|tag")
+		// 7. append(ct, tag...) over the identical tag: nothing changes, nothing to report
+		m = g.arena(1, seg{name: "ciphertext", data: ct}, seg{name: "tag", data: tag})
+		c = &call{fn: "self.append", layout: "ct|tag", args: argsOf(m, "ciphertext", "tag")}
+		_ = append(m["ciphertext"].s(), m["tag"].s()...)
+		check("append-identical", sigs(c), "")
+		// 8. tight capacities: append reallocates; a write behind the last argument is spare of nobody
+		m = g.arena(2, seg{name: "ciphertext", data: ct, tight: true}, seg{name: "tag", data: tag, tight: true})
+		c = &call{fn: "self.tight", layout: "ct|tag/tight", args: argsOf(m, "ciphertext", "tag")}
+		_ = append(m["ciphertext"].s(), 1, 2, 3)
+		check("tight-append", sigs(c), "")
+		// 9. the same slice as two arguments
+		m = map[string]*warg{"nonce": mk("nonce", []byte("nonce-nonce-"), layouts[g.round], 7)}
+		same(m, "associatedData", "nonce")
+		c = &call{fn: "self.same", layout: "ad==nonce", args: argsOf(m, "nonce", "associatedData")}
+		m["nonce"].s()[0]++
+		check("same-slice", sigs(c), "self.same/nonce=associatedData/body-written@ad==nonce")
+		// 10. slices returned by a callee, watched over their whole capacity
+		buf := make([]byte, 32, 48)
+		m = external([]string{"ciphertext", "tag"}, [][]byte{buf[:16], buf[16:32]})
+		c = &call{fn: "self.ext", layout: "returned-slices", args: argsOf(m, "ciphertext", "tag")}
+		buf[:48][40] = 9
+		buf[3] = 9
+		check("external", sigs(c), "self.ext/ciphertext/body-written@returned-slices,self.ext/tag/spare-written@returned-slices")
+	}
 }
 
 // ---------------------------------------------------------------- plan
@@ -504,6 +676,7 @@ func plan() []group {
 	base = append(base, planRSA()...)
 	base = append(base, planSig()...)
 	base = append(base, planParse()...)
+	base = append(base, planAlias()...)
 	var gs []group
 	for rep := 0; rep < reps; rep++ {
 		for _, g := range base {
@@ -517,7 +690,7 @@ func plan() []group {
 func TestCheck(t *testing.T) {
 	rec = mon.Open("C17")
 	defer rec.Close()
-	rec.Note("rule", "A case is one call into kit: (function, algorithm, success/failure path, argument lengths, per-argument layout off/spare, repetition). Every []byte argument (and every raw key slice given to jwk.FromRaw, which jwx retains by reference) is arr[off:off+len:off+len+spare] of its own canary-filled array, off in {0,1,16}, spare in {0,1,15,16,17,64}; after the call the whole array (before the slice, slice, spare capacity, 8 guard bytes) is compared with its snapshot; only dst[len:cap] of the explicit aescbcaead Seal/Open dst may differ. Returned slices are located against every argument array. Repetition 0 is a systematic sweep: all algorithms of SupportedSymmetric/Asymmetric/SignatureAlgorithms x lengths 0,1,15,16,17,31,32,33,48 x 18 rounds in which every argument position cycles through all 18 layouts x every success and failure path (wrong/short/long/nil tag, wrong nonce size, wrong key size/bytes/type, tampered or truncated ciphertext, wrong associated data, crafted bad padding, unsupported algorithm, too-long RSA plaintext, wrong digest size, ...). Repetitions >= 1 (thorough) draw layouts, contents and a third of the lengths (0..80) from the seeded stream. distinct = distinct (function, algorithm, path, lengths, layouts, repetition) tuples; non-trivial = at least one watched argument has spare capacity > 0.")
+	rec.Note("rule", "A case is one call into kit: (function, algorithm, success/failure path, argument lengths, per-argument layout off/spare, repetition). Every []byte argument (and every raw key slice given to jwk.FromRaw, which jwx retains by reference) is arr[off:off+len:off+len+spare] of its own canary-filled array, off in {0,1,16}, spare in {0,1,15,16,17,64}; after the call the whole array (before the slice, slice, spare capacity, 8 guard bytes) is compared with its snapshot; only dst[len:cap] of the explicit aescbcaead Seal/Open dst may differ. Returned slices are located against every argument array. Repetition 0 is a systematic sweep: all algorithms of SupportedSymmetric/Asymmetric/SignatureAlgorithms x lengths 0,1,15,16,17,31,32,33,48 x 18 rounds in which every argument position cycles through all 18 layouts x every success and failure path (wrong/short/long/nil tag, wrong nonce size, wrong key size/bytes/type, tampered or truncated ciphertext, wrong associated data, crafted bad padding, unsupported algorithm, too-long RSA plaintext, wrong digest size, ...). Aliasing layouts (alias.* counters): for every function with two or more caller-owned byte buffers the arguments are additionally cut out of ONE array - ciphertext directly followed by the tag (ct=msg[:n] whose spare capacity is the tag, and ct=msg[:n:n]), nonce||ct||tag, ad||nonce||ct||tag, ad||ct||tag, tag||ct, key||ct||tag, nonce||pt, ad||nonce||pt, key||pt, pt||key, digest||signature, key||digest||signature, the slices a previous kit Encrypt/Seal/Sign call returned handed straight back (their whole capacity is snapshotted), and the same slice given as two arguments (associatedData==nonce, plaintext==label, digest==signature); each clean call is repeated once with the identical arguments, the memory judged again and the two results compared; results are compared with the expected plaintext/ciphertext. Repetitions >= 1 draw layouts, contents and a third of the lengths (0..80) from the seeded stream. distinct = distinct (function, algorithm, path, lengths, layouts, repetition) tuples; non-trivial = at least one watched argument has spare capacity > 0.")
 	rec.Note("require", []string{
 		"selftest.passed",
 		"fn.padding.PadPKCS7", "fn.padding.UnpadPKCS7", "fn.aeskw.Wrap", "fn.aeskw.Unwrap",
@@ -531,6 +704,18 @@ func TestCheck(t *testing.T) {
 		"path.wrong-tag.err", "path.tag-size.err", "path.bad-padding.err", "path.nonce-size.err", "path.key-size.err", "path.key-type.err",
 		"path.ct-tampered.err", "path.ad-wrong.err", "path.unsupported-alg.err", "path.open-tagflip.err", "path.unpad-bad.err",
 		"dst.spare_written_allowed", "dst.result_aliases_dst",
+		// aliasing layouts (several arguments in one array), per function and per layout
+		"alias.fn.crypto.Encrypt", "alias.fn.crypto.Decrypt", "alias.fn.crypto.EncryptSymmetric", "alias.fn.crypto.DecryptSymmetric",
+		"alias.fn.crypto.EncryptPublicKey", "alias.fn.crypto.DecryptPrivateKey", "alias.fn.crypto.SignPrivateKey", "alias.fn.crypto.VerifyPublicKey",
+		"alias.fn.aescbcaead.Seal", "alias.fn.aescbcaead.Open",
+		"alias.layout.ct|tag", "alias.layout.ct|tag/tight", "alias.layout.nonce|ct|tag", "alias.layout.ad|nonce|ct|tag", "alias.layout.ad|ct|tag/tight",
+		"alias.layout.tag|ct", "alias.layout.key|ct|tag", "alias.layout.returned-slices", "alias.layout.ad==nonce",
+		"alias.layout.nonce|pt", "alias.layout.ad|nonce|pt", "alias.layout.pt|nonce/tight", "alias.layout.key|pt", "alias.layout.pt|key",
+		"alias.layout.pt|ad", "alias.layout.ad|pt", "alias.layout.pt==ad", "alias.layout.ct|ad", "alias.layout.ad|ct", "alias.layout.ct==ad",
+		"alias.layout.digest|sig", "alias.layout.digest|sig/tight", "alias.layout.sig|digest", "alias.layout.digest==sig", "alias.layout.key|digest", "alias.layout.key|digest|sig",
+		"alias.layout.nonce|sealed", "alias.layout.ad|nonce|sealed", "alias.layout.nonce|sealed/tight", "alias.layout.key|sealed",
+		"alias.crypto.DecryptSymmetric.ct|tag", "alias.crypto.Decrypt.ct|tag", "alias.crypto.DecryptSymmetric.returned-slices", "alias.crypto.Decrypt.returned-slices",
+		"alias.second_call_same_result", "alias.output_correct",
 	})
 	selftest()
 	initKeys()
@@ -557,6 +742,14 @@ func TestCheck(t *testing.T) {
 				runSig(gc, g)
 			case "parse":
 				runParse(gc, g)
+			case "alias-sym":
+				runAliasSym(gc, g)
+			case "alias-rsa":
+				runAliasRSA(gc, g)
+			case "alias-sig":
+				runAliasSig(gc, g)
+			case "alias-aead":
+				runAliasAEAD(gc, g)
 			}
 			rec.Progress()
 		}
